@@ -31,10 +31,10 @@ let bc2 (orow, ocol) (sr, sc) =
   List.concat (List.init orow (fun r -> List.init ocol (fun c ->
     ((if sr = 1 then 0 else r) * sc) + (if sc = 1 then 0 else c))))
 let valid_bc2 (orow, ocol) (sr, sc) = (sr = 1 || sr = orow) && (sc = 1 || sc = ocol)
-(* the hypothesis of C12_binary_2d_covers_once *)
+(* the hypothesis of C12_binary_2d_covers_once: any valid 2-d broadcast pattern *)
 let b2d_dom n o l r =
-  let ok (sr, sc) = valid_bc2 o (sr, sc) && not (sr = 1 && sc = 1 && fst o > 1) in
-  n >= 1 && fst o >= 1 && snd o >= 1 && ok l && ok r && (fst o = max (fst l) (fst r)) && (snd o = max (snd l) (snd r))
+  n >= 1 && fst o >= 1 && snd o >= 1 && valid_bc2 o l && valid_bc2 o r
+  && (fst o = max (fst l) (fst r)) && (snd o = max (snd l) (snd r))
 
 let two l = match l with [a; b] -> (a, b) | _ -> failwith "2-d shape expected"
 
@@ -47,8 +47,8 @@ let () =
         let es = b2d_entries nn o l r in
         let m = "ok " ^ string_of_int (n2i sr) ^ "," ^ string_of_int (n2i sc) ^ " ;" ^
                 (if es = [] then "" else " " ^ String.concat "," (List.map ent3 es)) in
-        (* raw tags/offsets: the model IS the reference here (tie of the model to the C++ text) — on the
-           theorem's domain only; the offsets of a (1,1) operand under several rows designate no cell *)
+        (* raw tags/offsets: the model IS the reference here (tie of the model to the C++ text), on the
+           theorem's domain (valid broadcast patterns) *)
         let dom = b2d_dom (n2i nn) (n2i (fst o), n2i (snd o)) (n2i (fst l), n2i (snd l)) (n2i (fst r), n2i (snd r)) in
         { model = m; spec = (if dom then m else "unspecified"); dom }
     | _ -> failwith "ix_b2d");
@@ -226,8 +226,8 @@ let () =
         if ctx = "none" then { model = spec; spec; dom = true } else
         let m = show_outcome dt oshape [0.0]
                   (eval_reduction (i2n n) f 0.0 ident (List.map i2n shape) (List.map (fun _ -> i2n 1) shape) None xs) in
-        (* C12_reduce_full_on_domain: the accumulator start 0 is the operation's identity, no initial *)
-        { model = m; spec; dom = exact && init = None && ident = 0.0 }
+        (* C12_reduce_full_on_domain: no initial *)
+        { model = m; spec; dom = exact && init = None }
     | Some ax ->
         let ax' = if ax < 0 then ax + dim else ax in
         if ax' < 0 || ax' >= dim then { model = "unspecified"; spec = "unspecified"; dom = false } else
@@ -237,12 +237,12 @@ let () =
         and inner = prod (List.filteri (fun i _ -> i > ax') shape) in
         let spec = if exact then show_f dt oshape (spec_reduce_axis f 0.0 init (i2n outer) (i2n k) (i2n inner) xs) else "unspecified" in
         if ctx = "none" then { model = spec; spec; dom = true } else
-        let horizontal = (ax = -1 || ax = dim - 1) in
+        let horizontal = (ax' = dim - 1) in
         let m = show_outcome dt oshape (zeros (prod oshape))
                   (eval_reduction (i2n n) f 0.0 ident (List.map i2n shape) (List.map i2n outk)
-                     (Some (horizontal, i2n (max 0 (ax + 1)))) xs) in
+                     (Some (ax < 0, i2n (abs ax))) xs) in
         let full = prod oshape = 1 in
-        (* C12_reduce_full_on_domain / C12_reduce_horizontal_core; the vertical arm and the n-d reshape are
-           corresponded only (partial) *)
-        let dom = exact && init = None && (if full then ident = 0.0 else horizontal) in
+        (* C12_reduce_full_on_domain / C12_reduce_horizontal_core; the vertical arm is proved for its 2-d core,
+           the n-d reshape in front of it is corresponded only *)
+        let dom = exact && init = None && (full || horizontal) in
         { model = m; spec; dom })
